@@ -231,3 +231,44 @@ func vh_C04_L1_snap_tokens() {
 // C13.L3: negotiation direction of zero checksums is part of the handshake obligations.
 func vh_C13_L3_negotiation_direction_snap()      { vh_C04_L1_snap_tokens() }
 func vh_C13_L3_negotiation_direction_handshake() { vh_C04_L1_client_server() }
+
+// C04.L4: the public connect calls return when the transport is closed under them. The
+// real Server / Client entry points are called with the association's loops live (they run
+// whenever the calling goroutine cannot proceed, see vGoLive); the transport delivers 0..1
+// handshake packets and then fails every read, as a closed connection does. The call must
+// return an error instead of waiting for a handshake that can no longer complete, and the
+// association it built must be torn down.
+func vh_C04_L4_connect_calls_return_when_transport_closes() {
+	vGoLive = true
+	conn := &vConn{failReads: true}
+	server := vPick(2) == 1
+	if server && vPick(2) == 1 {
+		// an INIT arrives first, then the peer goes away
+		init := &chunkInit{}
+		init.initiateTag, init.initialTSN = 1+nondetU32()%0xfffffffe, nondetU32()
+		init.numOutboundStreams, init.numInboundStreams = 10, 10
+		init.advertisedReceiverWindowCredit = 1500
+		setSupportedExtensions(&init.chunkInitCommon, false)
+		raw, err := (&packet{sourcePort: 5000, destinationPort: 5000, chunks: []chunk{init}}).marshal(true)
+		vassert(err == nil, "INIT marshals")
+		conn.inbound = [][]byte{raw}
+	}
+	cfg := Config{NetConn: conn, LoggerFactory: vLoggerFactory{}, Name: "v"}
+	var a *Association
+	var err error
+	if server {
+		vMustNotBlock("a waiting server-side connect call returns as soon as its transport is closed")
+		a, err = Server(cfg)
+	} else {
+		vMustNotBlock("a waiting client-side connect call returns as soon as its transport is closed")
+		a, err = Client(cfg)
+	}
+	vMayBlock()
+	vassert(a == nil && err != nil, "the call fails instead of returning a half-open association")
+	vassert(conn.closes <= 1, "the transport is closed at most once")
+	vcover("end")
+}
+
+// C04.L5: what the handshake learns about the peer's checksum acceptance comes from a
+// well-formed parameter naming the DTLS method in the latest INIT only (= C13.L3b).
+func vh_C04_L5_zero_checksum_learned_from_init() { vh_C13_L3_learned_only_from_wellformed_parameter() }
